@@ -11,11 +11,7 @@ U32 = numpy.uint32
 
 META = {
     "level": "exploration",
-    "rule": ("entries dicts of arity 1-4, 0..5000 entries, largest coordinate and common value drawn independently from "
-             "the four word-size classes (<=255, <=65535, <2^32, <2^63), row-id arrays of length 0..50 (a few 10^3-10^5) "
-             "with ids up to 2^32-1, written to real files and loaded back; plus well-formed non-negative indexes built "
-             "from dense arrays (1-D..3-D). Non-trivial: >=2 entries, >=1 non-empty row-id array, arity >=2 or a word "
-             "size >1; distinct by content hash"),
+    "rule": ("entries dicts of arity 1-4, 0..5000 entries, largest coordinate and common value drawn independently from the four word-size classes (<=255, <=65535, <2^32, <2^63), row-id arrays of length 0..50 (a few 10^3-10^5) with ids up to 2^32-1, written to real files and loaded back; plus well-formed non-negative indexes built from dense arrays (1-D..3-D); dense runs of exactly 255..65537 ids, arrays tiling one buffer, one 2^22-id array, NumPy-scalar coordinates, every writing open mode, twin files (same size / byte-identical coordinate blocks under another arity), earlier results re-read after the next load. Non-trivial: >=2 entries, >=1 non-empty row-id array, arity >=2 or a word size >1; distinct by content hash"),
     "require": {t: ["class:entries=0", "class:arity=1", "class:arity=4", "class:coord_word=8", "class:common_word=8",
                     "class:common_wider_than_coords", "class:empty_rowids", "class:index_roundtrip",
                     "class:dense_run_of_boundary_length", "class:arrays_tile_one_buffer", "class:numpy_scalar_coordinates",
